@@ -3,6 +3,7 @@ import Babble.Model.Median
 import Driver.HGEngine
 import Driver.ContEngine
 import Driver.DecEngine
+import Driver.FFEngine
 /-! Line-protocol driver: one operation per input line; for every line the driver prints the
     model's observations (lines starting with `O `) followed by a line containing a single `.`.
     Core Lean only (linked as an executable). -/
@@ -23,6 +24,7 @@ def stepLine (st : DState) (toks : List String) : DState × List String :=
   | "HG" :: rest => let (h, obs) := hgStep st.hg rest
                     ({ st with hg := h }, obs)
   | "DEC" :: rest => (st, decStep rest)
+  | "FF" :: rest => (st, ffStep rest)
   | "RI" :: rest => let (c, obs) := riStep st.cont rest
                     ({ st with cont := c }, obs)
   | "LRU" :: rest => let (c, obs) := lruStepD st.cont rest
